@@ -572,6 +572,15 @@ func hsDrive(w *hsWorld, rnd *rand.Rand, steps, tr int, res *vResult) {
 			if to.UDP == d.From {
 				continue
 			}
+			if d.H.Type == header.Handshake && d.H.MessageCounter == 1 && to.UDP != d.To {
+				// a stage 1 that reaches a node it was not sent to gets answered from an underlay address the initiator
+				// was never told: the initiator then LEARNS that address for the peer (RemoteList.LearnRemote through
+				// SetRemote in continueHandshake, also when it refuses the answer) and uses it for later attempts.
+				// Learned remotes are the subject of C36/C37; this model has static routes (wrong responders are
+				// reached through Route).
+				res.Hit("misdelivered-stage1-skipped")
+				continue
+			}
 			w.deliver(d, to, d.From)
 		case r < 82 && len(w.inflight) > 0:
 			k := rnd.Intn(len(w.inflight)) // loss
